@@ -46,11 +46,15 @@ type Scenario struct {
 	// "string" io.StringWriter): a codec may take another path then.
 	RCap string `json:"rcap,omitempty"`
 	WCap string `json:"wcap,omitempty"`
+	// EKind: what the devices fail with in this run (simio.ErrKinds): a plain
+	// error, one that calls itself temporary or a timeout, io.ErrUnexpectedEOF,
+	// io.ErrClosedPipe, io.ErrNoProgress.
+	EKind string `json:"ekind,omitempty"`
 }
 
 // caps is set by Execute for the helpers of this package (one scenario at a
 // time per process).
-var rcap, wcap string
+var rcap, wcap, ekind string
 
 type prop struct{}
 
@@ -79,7 +83,7 @@ func (prop) Describe() core.Description {
 		RealComponents: []string{"go-geom root package (constructors, Push, accessors)", "encoding/wkb", "encoding/ewkb", "encoding/wkbcommon", "encoding/wkbhex", "encoding/ewkbhex", "wkb/ewkb database/sql Scanner/Valuer wrappers", "stdlib io, encoding/binary, bytes, encoding/hex"},
 		StubComponents: []string{"io.Writer (simio.Writer: failure offset, short/whole-call, sticky/transient; optionally also io.ByteWriter or io.StringWriter)", "io.Reader (simio.Reader: chunking, stalls, data+EOF, error at offset, truncation; optionally also io.ByteReader)", "database/sql driver (Scan/Value are called directly)"},
 		FaultKinds:     []string{"write-fail-sticky-short", "write-fail-sticky-whole", "write-fail-transient", "read-split", "read-stall", "read-data+eof", "read-error", "read-error-with-data", "read-truncate"},
-		Probes:         []string{"probe:error-inside-count", "probe:split-inside-type-word", "probe:stall-before-byte-order", "probe:srid>=2^31", "probe:xdr+zm+empty-member", "probe:nested-collection", "probe:mixed-layout-collection", "probe:empty-point", "probe:rejected-unsupported-layout", "probe:rejected-empty-point", "probe:concatenated>=2", "probe:enum-capped", "probe:member-srid-round-trip", "probe:result-rechecked-after-later-calls", "probe:wkb-of-geometry-with-srid", "probe:reader-with-ReadByte", "probe:writer-with-byte", "probe:writer-with-string"},
+		Probes:         []string{"probe:error-inside-count", "probe:split-inside-type-word", "probe:stall-before-byte-order", "probe:srid>=2^31", "probe:xdr+zm+empty-member", "probe:nested-collection", "probe:mixed-layout-collection", "probe:empty-point", "probe:rejected-unsupported-layout", "probe:rejected-empty-point", "probe:concatenated>=2", "probe:enum-capped", "probe:member-srid-round-trip", "probe:result-rechecked-after-later-calls", "probe:error-kind-temporary", "probe:error-kind-timeout", "probe:error-kind-unexpected-eof", "probe:error-kind-closed-pipe", "probe:error-kind-no-progress", "probe:wkb-of-geometry-with-srid", "probe:reader-with-ReadByte", "probe:writer-with-byte", "probe:writer-with-string"},
 	}
 }
 
@@ -95,6 +99,13 @@ func (prop) Decode(raw []byte) (any, error) {
 	}
 	if (s.RCap != "" && s.RCap != "byte") || (s.WCap != "" && s.WCap != "byte" && s.WCap != "string") {
 		return nil, fmt.Errorf("bad device capabilities")
+	}
+	okKind := false
+	for _, k := range simio.ErrKinds {
+		okKind = okKind || k == s.EKind
+	}
+	if !okKind || (s.Read.ErrKind != "" && s.Read.ErrKind != s.EKind) {
+		return nil, fmt.Errorf("bad error kind")
 	}
 	for _, g := range s.Geoms {
 		if g == nil {
@@ -203,6 +214,12 @@ func (prop) Generate(r *prng.Rand, phase string) any {
 	s.WrongKind = wkbadapt.Kinds[r.Intn(len(wkbadapt.Kinds))]
 	s.RCap = []string{"", "", "byte"}[r.Intn(3)]
 	s.WCap = []string{"", "", "byte", "string"}[r.Intn(4)]
+	if r.Chance(0.4) {
+		s.EKind = simio.ErrKinds[r.Intn(len(simio.ErrKinds))]
+	}
+	if s.Read.ErrAt >= 0 {
+		s.Read.ErrKind = s.EKind
+	}
 	return s
 }
 
@@ -439,7 +456,10 @@ func (prop) Execute(scAny any, phase string, log *core.Log) core.Result {
 	s := scAny.(*Scenario)
 	var res core.Result
 	lib := wkbadapt.Lib{C: s.Codec}
-	rcap, wcap = s.RCap, s.WCap
+	rcap, wcap, ekind = s.RCap, s.WCap, s.EKind
+	if s.EKind != "" {
+		res.Count("probe:error-kind-"+s.EKind, 1)
+	}
 	if s.RCap != "" {
 		res.Count("probe:reader-with-ReadByte", 1)
 	}
@@ -680,7 +700,7 @@ func oneGeomWrite(res *core.Result, log *core.Log, lib wkbadapt.Lib, s *Scenario
 		bounds = append(bounds, off)
 	}
 	try := func(k int, short, transient bool) bool {
-		fw := simio.NewWriter(simio.WritePlan{FailAt: k, Short: short, Transient: transient})
+		fw := simio.NewWriter(simio.WritePlan{FailAt: k, Short: short, Transient: transient, ErrKind: ekind})
 		var err error
 		if p := core.Guard(func() { err = lib.Write(fw.With(wcap), e.g) }); p != "" {
 			res.Fail("panic", "panic:write-fail:"+core.PanicSite(p), "Write panicked with writer failing at %d: %s", k, p)
@@ -705,8 +725,8 @@ func oneGeomWrite(res *core.Result, log *core.Log, lib wkbadapt.Lib, s *Scenario
 			res.Fail("writer-error-lost", "writer-error-lost:"+cls, "the writer failed at offset %d (field %s, short=%v, transient=%v) of %s %s but Write returned nil; accepted %d of %d bytes", k, cls, short, transient, s.Codec, e.m, len(fw.Buf), len(e.ref))
 			return false
 		}
-		if !errors.Is(err, simio.ErrInjected) && !strings.Contains(err.Error(), simio.ErrInjected.Error()) {
-			res.Fail("writer-error-replaced", "writer-error-replaced:"+cls, "the writer failed at offset %d with %q but Write reported %q", k, simio.ErrInjected, err)
+		if !simio.Reports(err, ekind) {
+			res.Fail("writer-error-replaced", "writer-error-replaced:"+cls, "the writer failed at offset %d with %q but Write reported %q", k, simio.ErrOf(ekind), err)
 			return false
 		}
 		if !transient {
@@ -959,7 +979,7 @@ func enumReads(res *core.Result, log *core.Log, lib wkbadapt.Lib, s *Scenario, e
 		// error at k, alone and together with data
 		for _, with := range []bool{false, true} {
 			p = simio.NoFault()
-			p.ErrAt, p.ErrWithData = k, with
+			p.ErrAt, p.ErrWithData, p.ErrKind = k, with, ekind
 			if !readStream(res, log, lib, one, stream, p, fired, fmt.Sprintf("error at %d with-data=%v", k, with)) {
 				return false
 			}
@@ -973,7 +993,7 @@ func enumReads(res *core.Result, log *core.Log, lib wkbadapt.Lib, s *Scenario, e
 	}
 	// an error exactly at the end of the geometry must not matter
 	p = simio.NoFault()
-	p.ErrAt = len(e.ref)
+	p.ErrAt, p.ErrKind = len(e.ref), ekind
 	if !readStream(res, log, lib, one, stream, p, fired, "error right after the geometry") {
 		return false
 	}
